@@ -54,7 +54,7 @@ import os as _os
 from vf.core import REPO as _REPO, HarnessError as _HarnessError, lean_str as _lean_str, lean_list as _lean_list
 
 MODULES = ["Model.Tree", "Proofs.Tree", "Proofs.TreeFrame", "Proofs.TreeCopy", "Proofs.TreeRun", "Proofs.TreeNorm",
-           "Proofs.TreeWalk", "Proofs.TreeRepair", "Proofs.TreeOrder", "Generated.C08", "Properties.C08"]
+           "Proofs.TreeWalk", "Proofs.TreeRepair", "Proofs.TreeOrder", "Proofs.TreeIter", "Generated.C08", "Properties.C08"]
 _P = "SqlglotModel.Properties.C08."
 THEOREMS = [_P + n for n in (
     "inv_init", "inv_new", "inv_set", "inv_append", "inv_replace", "inv_pop", "inv_hash", "inv_eq", "inv_copy",
@@ -65,6 +65,8 @@ THEOREMS = [_P + n for n in (
     "negative_index_breaks_links", "negative_index_normalised_witness", "negative_index_normalised_ok",
     "replace_by_own_child_leaves_husk", "replaceRec_extends_replace", "replace_list_in_scalar_slot_leaves_husk",
     "hash_insertion_order_independent", "unsorted_hash_depends_on_insertion_order",
+    "walk_enumerates_reachable", "find_all_exact", "find_ancestor_nearest", "root_and_depth", "parent_chain_is_storage_chain",
+    "unnest_strips_parens", "optimizer_moves_reviewed",
     "generated_structure_ok", "primitive_classes_scalar_only",
 )]
 
@@ -1752,6 +1754,49 @@ def _loop_shapes(core_tree) -> dict:
     return out
 
 
+import glob as _glob
+
+
+def scan_moves(REPO):
+    rows=[]
+    for f in sorted(_glob.glob(_os.path.join(REPO,'sqlglot','optimizer','*.py'))):
+        t=_ast.parse(open(f).read())
+        for fn in _ast.walk(t):
+            if not isinstance(fn, _ast.FunctionDef): continue
+            loops=[n for n in _ast.walk(fn) if isinstance(n,(_ast.For,_ast.While))]
+            def loop_of(node):
+                return [id(l) for l in loops if any(x is node for x in _ast.walk(l))]
+            placed=[]; moved=[]
+            for n in _ast.walk(fn):
+                if not isinstance(n, _ast.Call): continue
+                name = n.func.attr if isinstance(n.func, _ast.Attribute) else n.func.id if isinstance(n.func, _ast.Name) else None
+                if isinstance(n.func, _ast.Attribute) and (name == "replace" or (name in ("set", "append") and len(n.args) >= 2)):
+                    for a in (n.args if name == "replace" else n.args[1:]):
+                        for x in _ast.walk(a):
+                            if isinstance(x, _ast.Name): placed.append((x.id, n))
+                if any(kw.arg=="copy" and isinstance(kw.value, _ast.Constant) and kw.value.value is False for kw in n.keywords):
+                    for a in n.args:
+                        if isinstance(a, _ast.Name): moved.append((a.id, n))
+            for v, pn in placed:
+                for w, mn in moved:
+                    if v != w or any(x is mn for x in _ast.walk(pn)): continue
+                    same_loop = set(loop_of(pn)) & set(loop_of(mn))
+                    if mn.lineno > pn.lineno or same_loop:
+                        rows.append(f"{_os.path.basename(f)}:{fn.name}:{v} | placed: {_ast.unparse(pn)} | moved: {_ast.unparse(mn)}")
+    return sorted(set(rows))
+
+
+_ITER_BODIES = {
+    "root": "expression: Expr = self\nwhile expression.parent:\n    expression = expression.parent\nreturn expression",
+    "depth": "if self.parent:\n    return self.parent.depth + 1\nreturn 0",
+    "find_ancestor": "ancestor = self.parent\nwhile ancestor and (not isinstance(ancestor, expression_types)):\n    ancestor = ancestor.parent\nreturn ancestor",
+    "unnest": "expression = self\nwhile type(expression) is Paren:\n    expression = expression.this\nreturn expression",
+    "find_all": "for expression in self.walk(bfs=bfs):\n    if isinstance(expression, expression_types):\n        yield expression",
+    "bfs": "queue: deque[Expr] = deque()\nqueue.append(self)\nwhile queue:\n    node = queue.popleft()\n    yield node\n    if prune and prune(node):\n        continue\n    for v in node.iter_expressions():\n        queue.append(v)",
+    "iter_expressions": "for vs in reversed(self.args.values()) if reverse else self.args.values():\n    if isinstance(vs, list):\n        for v in reversed(vs) if reverse else vs:\n            if isinstance(v, Expr):\n                yield t.cast(E, v)\n    elif isinstance(vs, Expr):\n        yield t.cast(E, vs)",
+}
+
+
 def translate(chk) -> str:
     path = _os.path.join(_REPO, "sqlglot", "expressions", "core.py")
     tree = _ast.parse(open(path, encoding="utf-8").read())
@@ -1762,6 +1807,10 @@ def translate(chk) -> str:
         "eqIsHashEquality": _eq_is_hash(_method(tree, "Expression", "__eq__")),
     }
     facts.update(_loop_shapes(tree))
+    facts["iteratorShapes"] = all(
+        _method(tree, "Expression", nm) is not None and "\n".join(_ast.unparse(st) for st in _method(tree, "Expression", nm).body
+                                                                   if not (isinstance(st, _ast.Expr) and isinstance(st.value, _ast.Constant))) == body
+        for nm, body in _ITER_BODIES.items())
     hsrc = _ast.unparse(_method(tree, "Expression", "__hash__")) if _method(tree, "Expression", "__hash__") else ""
     facts["hashIteratesSortedKeys"] = hsrc.count("for k in sorted(node.args):") == 2 and "in node.args.items()" not in hsrc \
         and "for k in node.args:" not in hsrc
@@ -1783,6 +1832,11 @@ def translate(chk) -> str:
     lines.append("/-- does `set` normalise a negative index before removing a list element? (model variant selector, see "
                  "Properties/C08 `negative_index_breaks_links`) -/")
     lines.append(f"def negativeIndexNormalised : Bool := {'true' if neg_norm else 'false'}")
+    moves = scan_moves(_REPO)
+    chk.cov["optimizer_place_then_move"] = moves
+    lines.append("/-- optimizer functions in which a variable is both installed in a tree (replace / set / append) and handed to a "
+                 "`copy=False` builder later or in the same loop: `file:function:var | placed: … | moved: …` -/")
+    lines.append("def optimizerPlaceThenMove : List String := " + _lean_list(_lean_str(x) for x in moves))
     prim = sorted((c.key, sorted(c.arg_types)) for c in _all_subclasses(exp.Expr) if getattr(c, "is_primitive", False))
     chk.cov["primitive_classes"] = {k: a for k, a in prim}
     lines.append("/-- classes with `is_primitive = True` (whose `__init__` does not link children) and their arg names -/")
@@ -1908,6 +1962,22 @@ class RealHeap:
                 self._copy_pending = cp
                 self.reg[op["n"]].transform(self.user_fun(op["fun"]), copy=cp)
                 return "ok"
+            if kind in ("root", "depth", "find_ancestor", "unnest", "walk", "find_all"):
+                o = self.reg[op["n"]]
+                rid = lambda x: "-" if x is None else str(self.ids[id(x)])  # noqa: E731
+                if kind == "root":
+                    return "r " + rid(o.root())
+                if kind == "depth":
+                    return "r %d" % o.depth
+                if kind == "find_ancestor":
+                    return "r " + rid(o.find_ancestor(self.cls[op["cls"]]))
+                if kind == "unnest":
+                    return "r " + rid(o.unnest())
+                if kind == "walk":
+                    pc = op["prune"]
+                    it = (o.bfs if op["bfs"] else o.dfs)(prune=lambda n: n.key == pc)
+                    return "r " + ",".join(rid(x) for x in it)
+                return "r " + ",".join(rid(x) for x in o.find_all(self.cls[op["cls"]], bfs=op["bfs"]))
             if kind == "repair":
                 # the simplifier's pointer repair loop (sqlglot/optimizer/simplify.py; shape checked by the translator)
                 o = self.reg[op["n"]]
@@ -1995,6 +2065,16 @@ class RealHeap:
                     st.update(id(x) for x in v if isinstance(x, Expr))
         return st
 
+    def parent_chain_ok(self, n) -> bool:
+        """the parent-pointer chain of n ends (stale pointers can close a pointer cycle on which root()/depth never return)"""
+        seen, o = set(), self.reg[n]
+        while o is not None:
+            if id(o) in seen:
+                return False
+            seen.add(id(o))
+            o = o.parent
+        return True
+
     def has_cycle_from(self, n) -> bool:
         from sqlglot.expressions.core import Expr
         WHITE, GREY, BLACK = 0, 1, 2
@@ -2081,6 +2161,9 @@ ALPHABET = [
     {"op": "rc", "n": 3, "fun": "wrap"}, {"op": "rc", "n": 0, "fun": "lit"}, {"op": "rc", "n": 3, "fun": "dup"},
     {"op": "transform", "n": 0, "fun": "wrap", "copy": True}, {"op": "transform", "n": 3, "fun": "dup", "copy": True},
     {"op": "repair", "n": 3}, {"op": "repair", "n": 0},
+    {"op": "root", "n": 7}, {"op": "depth", "n": 7}, {"op": "find_ancestor", "n": 7, "cls": "tuple"},
+    {"op": "walk", "n": 0, "bfs": False, "prune": "column"}, {"op": "walk", "n": 0, "bfs": True, "prune": "none"},
+    {"op": "find_all", "n": 0, "bfs": True, "cls": "literal"}, {"op": "unnest", "n": 9},
 ]
 FUNS = ["id", "lit", "wrap", "drop", "dup", "mut"]
 
@@ -2106,7 +2189,9 @@ def random_history(rng, max_len, wild=0.08):
     def emit(op):
         # a caller-made cycle (possible through a stale parent pointer) makes hash()/copy() loop forever in Python:
         # never execute a traversal over one
-        if op["op"] in ("hash", "copy") and real.has_cycle_from(op["n"]):
+        if op["op"] in ("hash", "copy", "walk", "find_all", "unnest") and real.has_cycle_from(op["n"]):
+            return "ok"
+        if op["op"] in ("root", "depth", "find_ancestor") and not real.parent_chain_ok(op["n"]):
             return "ok"
         if op["op"] == "eq" and (real.has_cycle_from(op["a"]) or real.has_cycle_from(op["b"])):
             return "ok"
@@ -2257,7 +2342,13 @@ def random_history(rng, max_len, wild=0.08):
                 res = emit({"op": "rc", "n": tgt, "fun": rng.choice(FUNS)})
             else:
                 res = emit({"op": "repair", "n": tgt})
-        elif r < 0.91:
+        elif r < 0.86:
+            kc = rng.choice(["paren", "column", "tuple", "and", "literal", "in", "select"])
+            q = rng.choice([{"op": "root", "n": tgt}, {"op": "depth", "n": tgt}, {"op": "find_ancestor", "n": tgt, "cls": kc},
+                            {"op": "unnest", "n": tgt}, {"op": "walk", "n": tgt, "bfs": rng.random() < 0.5, "prune": rng.choice([kc, "none"])},
+                            {"op": "find_all", "n": tgt, "bfs": rng.random() < 0.5, "cls": kc}])
+            res = emit(q)
+        elif r < 0.93:
             res = emit({"op": "hash", "n": tgt})
         elif r < 0.96:
             res = emit({"op": "eq", "a": tgt, "b": rng.randrange(nreg)})
@@ -2359,6 +2450,8 @@ def correspond(chk) -> list:
                 continue
             if op["op"] == "setneg":
                 continue  # on the unrepaired code the heap is now inconsistent (indexes may go negative next): terminal
+            if op["op"] in ("root", "depth", "find_ancestor", "unnest", "walk", "find_all"):
+                continue  # read-only queries are compared after every prefix, but never extend one
             if depth + 1 < L:
                 lines.append(_json.dumps({"op": "save", "slot": depth + 1})); expect.append("ok|"); where.append((hi, -1))
                 rec(seq, depth + 1)
